@@ -1,0 +1,18 @@
+// Copyright ©2024 The bíogo Authors. All rights reserved.
+// Use of this source code is governed by a BSD-style
+// license that can be found in the LICENSE file.
+
+//go:build verif
+
+package bam
+
+import "github.com/biogo/hts/internal"
+
+// VerifBinFor re-exports the BAI bin function of the internal package.
+func VerifBinFor(beg, end int) uint32 { return internal.BinFor(beg, end) }
+
+// VerifOverlappingBinsFor re-exports the BAI bin list function of the internal package.
+func VerifOverlappingBinsFor(beg, end int) []uint32 { return internal.OverlappingBinsFor(beg, end) }
+
+// VerifIsValidIndexPos re-exports the BAI position range check.
+func VerifIsValidIndexPos(i int) bool { return internal.IsValidIndexPos(i) }
